@@ -1,6 +1,6 @@
 """Small pure functions of encoding.py / scripts.py -> GenFuncs.v (via py2coq, fail-closed)."""
 import ast, os
-from py2coq import Fn, translate_function, INT, BYTES, BOOL
+from py2coq import Fn, translate_function, INT, BYTES, BOOL, INTS
 
 HEADER = '''From Coq Require Import ZArith List Bool.
 From Coq.Strings Require Import Byte.
@@ -15,6 +15,9 @@ PLAN = [
         Fn('int_to_varbyteint', [('inp', INT)], BYTES),
         Fn('varbyteint_to_int', [('byteint', BYTES)], (INT, INT)),
         Fn('varstr', [('string', BYTES)], BYTES),
+        Fn('_bech32_polymod', [('values', INTS)], INT, coq_name='gen_bech32_polymod'),
+        Fn('convertbits', [('data', INTS), ('frombits', INT), ('tobits', INT), ('pad', BOOL)], INTS,
+           while_fuel=['bits']),
     ]),
     ('bitcoinlib/scripts.py', [
         Fn('data_pack', [('data', BYTES)], BYTES),
